@@ -253,6 +253,14 @@ class Unit:
                     seen.append((norm(ty0), nm, norm(dims)))
                     continue
                 cty, bty, cdims = typeover[nm]
+            elif dims.startswith(':'):
+                # bit-field member: same declaration in C; the layout pin (expect) compares type, name and order only
+                cty, bty, cdims = self.field_type(ty, '')
+                cdims = ' ' + dims
+                lines.append('    %s %s%s;' % (cty, nm, cdims))
+                ci.fields[nm] = (bty, '')
+                seen.append((norm(ty0), nm, ''))
+                continue
             else:
                 cty, bty, cdims = self.field_type(ty, dims)
             lines.append('    %s %s%s;' % (cty, nm, cdims))
